@@ -137,6 +137,17 @@ func Response() Profile {
 		ExplicitBody: true, Maps: true, Bytes: true, PrimPayloads: true, ResultTypes: true, RespHeavy: true, AliasDefaults: true, Unions: true, DualTransport: true}
 }
 
+// Streams is the profile of the streaming campaigns (C02/C03): most methods
+// are websocket streaming endpoints whose payload travels in path, query and
+// headers; streamed messages are primitives, arrays, maps, inline objects,
+// user types (aliases, nesting, recursion, validations, defaults) and result
+// types with views.
+func Streams() Profile {
+	return Profile{Name: "streams", MaxServices: 2, MaxMethods: 4, MaxFields: 5, Runtime: true, Streaming: true,
+		Validations: true, Defaults: true, UserTypes: true, Aliases: true, Recursive: true, BasePaths: true, MultiRoute: true,
+		Maps: true, Bytes: true, PrimPayloads: true, ResultTypes: true, ParamHeavy: true, NoBodyVerbs: true}
+}
+
 // G carries the state of one design generation.
 type G struct {
 	t *rapid.T
@@ -150,6 +161,8 @@ type G struct {
 	inlineLevel int
 	// apiErrInService: the current service re-declares the API-level error
 	apiErrInService bool
+	// streamingNow: the method being generated is a streaming endpoint
+	streamingNow bool
 }
 
 // avoid reports whether the generator must steer away from an open finding;
